@@ -23,6 +23,7 @@ type Trace10 struct {
 	Addon   string `json:"addon,omitempty"`   // add-on digits
 	Par     int    `json:"parity,omitempty"`  // add-on parity pattern
 	Scale   int    `json:"scale,omitempty"`   // 0: row handed to DecodeRow; >0: rendered image at this scale
+	Hints   int    `json:"hints,omitempty"`   // optional decode hints passed to the reader, bit mask: 1 TRY_HARDER, 2 result-point callback, 4 ALLOWED_EAN_EXTENSIONS {0,2,5}, 8 POSSIBLE_FORMATS (all six), 16 ASSUME_GS1
 	FixK    bool   `json:"fixk,omitempty"`    // Code 93: after the substitution, K is recomputed over data + C (only C fails to verify)
 	// Prev lists symbols read earlier on the same reader instances (instance-reuse history)
 	Prev []*Trace10 `json:"prev,omitempty"`
@@ -292,6 +293,31 @@ type readOut struct {
 // read sends a row to the real reader: scale 0 = DecodeRow on a BitArray
 // (forward only), scale >= 1 = rendered image through the binariser and the
 // full Decode path.
+// hintsOf builds the optional hints of a trace (none of them may change which
+// numbers verify).
+func hintsOf(tr *Trace10) map[gozxing.DecodeHintType]interface{} {
+	if tr == nil || tr.Hints == 0 {
+		return nil
+	}
+	h := map[gozxing.DecodeHintType]interface{}{}
+	if tr.Hints&1 != 0 {
+		h[gozxing.DecodeHintType_TRY_HARDER] = true
+	}
+	if tr.Hints&2 != 0 {
+		h[gozxing.DecodeHintType_NEED_RESULT_POINT_CALLBACK] = gozxing.ResultPointCallback(func(gozxing.ResultPoint) {})
+	}
+	if tr.Hints&4 != 0 {
+		h[gozxing.DecodeHintType_ALLOWED_EAN_EXTENSIONS] = []int{0, 2, 5}
+	}
+	if tr.Hints&8 != 0 {
+		h[gozxing.DecodeHintType_POSSIBLE_FORMATS] = []gozxing.BarcodeFormat{gozxing.BarcodeFormat_EAN_13, gozxing.BarcodeFormat_UPC_A, gozxing.BarcodeFormat_EAN_8, gozxing.BarcodeFormat_UPC_E, gozxing.BarcodeFormat_CODE_128, gozxing.BarcodeFormat_CODE_93}
+	}
+	if tr.Hints&16 != 0 {
+		h[gozxing.DecodeHintType_ASSUME_GS1] = true
+	}
+	return h
+}
+
 func read(rd gozxing.Reader, row []bool, scale int) (o readOut) {
 	enter("reader/hang", "reader/hang", curTrace10, "1-D reader did not return")
 	defer leave()
@@ -308,7 +334,7 @@ func read(rd gozxing.Reader, row []bool, scale int) (o readOut) {
 			o.err = fmt.Errorf("reader is not a RowDecoder")
 			return
 		}
-		res, err = dec.DecodeRow(0, toArray(row, 20), nil)
+		res, err = dec.DecodeRow(0, toArray(row, 20), hintsOf(curTrace10))
 	} else {
 		quiet := 20 * scale
 		bm, _ := gozxing.NewBitMatrix(len(row)*scale+2*quiet, 24)
@@ -322,7 +348,7 @@ func read(rd gozxing.Reader, row []bool, scale int) (o readOut) {
 			o.err = e
 			return
 		}
-		res, err = rd.Decode(bmp, nil)
+		res, err = rd.Decode(bmp, hintsOf(curTrace10))
 	}
 	if err != nil {
 		o.err = err
@@ -927,7 +953,18 @@ func C10() *kit.Spec {
 			probe := func(p string) { c.Count(p, 1) }
 			readerCache = map[string]gozxing.Reader{}
 			var hist []*Trace10
+			// optional hints an application may pass: the same for a whole job
+			jobHints := 0
+			if r.Chance(1, 2) {
+				jobHints = r.Intn(32)
+			}
 			do := func(tr *Trace10, hash bool) bool {
+				if tr.Kind == "reader" || tr.Kind == "addon" || tr.Kind == "c128" || tr.Kind == "c93" {
+					tr.Hints = jobHints
+					if jobHints != 0 {
+						probe("probe.reader_given_optional_hints")
+					}
+				}
 				out, f := exec10(tr, probe)
 				if f != nil && strings.Contains(f.class, "misread-verifies") {
 					// a misread of a located symbol: reported (known finding or
